@@ -25,6 +25,8 @@ import HL.Lemmas.Completion
 import HL.Model.CompletionPinned
 import HL.Model.Parser
 import HL.Model.Pipeline
+import HL.Model.LexerPinned
+import HL.Lemmas.ParserAmountRange
 namespace HL.Props.C08
 open HL HL.Ast HL.Text HL.Ranges HL.RangeSpec HL.Lemmas.Ranges HL.Lemmas.Text
 
@@ -653,19 +655,86 @@ theorem inlineCompletion_rangeOK (doc : Txt) (c : Cur) (n : Nat)
     The trees below are what the real parser produces for the quoted texts (the same documents
     are replayed against the real server from replays/C08/). -/
 
-/-- `    a:b ;c`: the account token's End lies after the single blank; the range sent for the
-    account covers "a:b ". -/
-theorem account_trailing_blank_counterexample :
-    let doc := "2024-01-15 x\n    a:b ;c\n".toList
-    let r : Rng := ⟨⟨2, 5, 17⟩, ⟨2, 9, 21⟩⟩
-    rngSound one doc r = true ∧ covers doc (toN (astRangeToProtocol (lines doc) r)) "a:b".toList = false ∧
-    slice doc (toN (astRangeToProtocol (lines doc) r)) = some "a:b ".toList := by decide
+/-- the lexer state at byte `off` of `text`, on line `line` at column `col` -/
+def stateAt (text : Bytes) (off line col : Nat) : HL.Lex.Z := ⟨(text.take off).reverse, text.drop off, line, col, false⟩
 
-/-- `1 USD ; c`: `Amount.Range` ends at the comment token. -/
-theorem amount_trailing_blank_counterexample :
+/-- **pinned_account_trailing_blank_counterexample** (before repo_patches/fix-trailing-blank-ranges.diff).
+    `    a:b ;c`: the account token ended where the scan stopped, behind the single blank
+    (`HL.Lex.PinnedTrail.scanAccount`: End 2:9); the range sent for the account covered "a:b ".
+    The repaired lexer ends the token with the name (End 2:8) and leaves the lexer in the same
+    state; the range covers exactly "a:b" (`HL.Props.C06.account_token_is_its_name`: for every
+    byte string). -/
+theorem pinned_account_trailing_blank_counterexample :
+    let doc := "2024-01-15 x\n    a:b ;c\n".toList
+    let z := stateAt "2024-01-15 x\n    a:b ;c\n".toUTF8.toList 17 2 5
+    let old := HL.Lex.PinnedTrail.scanAccount z
+    let new := HL.Lex.scanAccount z
+    (old.1.pos, old.1.stop) = (⟨2, 5, 17⟩, ⟨2, 9, 21⟩) ∧ (new.1.pos, new.1.stop) = (⟨2, 5, 17⟩, ⟨2, 8, 20⟩) ∧
+    old.1.val = new.1.val ∧ old.2 = new.2 ∧
+    covers doc (toN (astRangeToProtocol (lines doc) ⟨old.1.pos, old.1.stop⟩)) "a:b".toList = false ∧
+    slice doc (toN (astRangeToProtocol (lines doc) ⟨old.1.pos, old.1.stop⟩)) = some "a:b ".toList ∧
+    covers doc (toN (astRangeToProtocol (lines doc) ⟨new.1.pos, new.1.stop⟩)) "a:b".toList = true := by
+  decide +kernel
+
+/-- **pinned_commodity_text_trailing_blank_counterexample.**  `1 руб  ; c`: a commodity lexed as
+    text ended where `scanText` stopped, at the `;` (`HL.Lex.PinnedTrail.scanText`: End 2:17); the
+    commodity range covered "руб  ".  The repaired lexer ends the token behind the last character
+    of its value (End 2:15, `HL.Props.C06.text_token_is_its_value`), same lexer state. -/
+theorem pinned_commodity_text_trailing_blank_counterexample :
+    let doc := "2024-01-15 x\n    a:b  1 руб  ; c\n".toList
+    let z := stateAt "2024-01-15 x\n    a:b  1 руб  ; c\n".toUTF8.toList 24 2 12
+    let old := HL.Lex.PinnedTrail.scanText z
+    let new := HL.Lex.scanText z
+    (old.1.pos, old.1.stop) = (⟨2, 12, 24⟩, ⟨2, 17, 32⟩) ∧ (new.1.pos, new.1.stop) = (⟨2, 12, 24⟩, ⟨2, 15, 30⟩) ∧
+    old.1.val = new.1.val ∧ old.2 = new.2 ∧
+    slice doc (toN (astRangeToProtocol (lines doc) ⟨old.1.pos, old.1.stop⟩)) = some "руб  ".toList ∧
+    covers doc (toN (astRangeToProtocol (lines doc) ⟨new.1.pos, new.1.stop⟩)) "руб".toList = true := by
+  decide +kernel
+
+/-- **pinned_amount_trailing_blank_counterexample.**  `1 USD ; c`: `Amount.Range` ended at the Pos
+    of the token that follows the amount (the comment, 2:16) and covered "1 USD "; the repaired
+    parser ends it where the last token of the amount ends (2:15): the tree of the repaired lexer
+    and parser models, and the range hover reports for it. -/
+theorem pinned_amount_trailing_blank_counterexample :
     let doc := "2024-01-15 x\n    a:b  1 USD ; c\n".toList
-    let r : Rng := ⟨⟨2, 10, 22⟩, ⟨2, 16, 28⟩⟩
-    rngSound one doc r = true ∧ slice doc (toN (astRangeToProtocol (lines doc) r)) = some "1 USD ".toList := by decide
+    let old : Rng := ⟨⟨2, 10, 22⟩, ⟨2, 16, 28⟩⟩
+    let tree := (HL.Pipeline.parseText Classes.go "2024-01-15 x\n    a:b  1 USD ; c\n".toUTF8.toList).1
+    rngSound one doc old = true ∧ slice doc (toN (astRangeToProtocol (lines doc) old)) = some "1 USD ".toList ∧
+    (tree.transactions.map fun t => t.postings.map fun p => p.amount.map (·.range)) =
+      [[some ⟨⟨2, 10, 22⟩, ⟨2, 15, 27⟩⟩]] ∧
+    ((hover (lines doc) tree ⟨1, 11⟩).map fun e => (toN e.2, slice doc (toN e.2))) =
+      some (⟨1, 9, 1, 14⟩, some "1 USD".toList) := by
+  decide +kernel
+
+/-- **Where `Amount.Range` ends**, for every token source and every parser state: with the
+    right-hand commodity of the amount if it has one, otherwise with its number (one of the first
+    four tokens `parseAmount` looks at) — never at the token that follows. -/
+theorem amount_range_ends_with_last_token {σ : Type} (E : HL.Parser.Env σ) (st st' : HL.Parser.PState σ)
+    (a : Amount) (h : HL.Parser.parseAmount E st = (some a, st')) :
+    a.range.start = st.current.pos ∧
+    ((a.commodity.side = .right ∧ a.range.stop = a.commodity.range.stop) ∨
+     (∃ s1, (s1 = st ∨ s1 = HL.Parser.advance E st ∨ s1 = HL.Parser.advance E (HL.Parser.advance E st) ∨
+          s1 = HL.Parser.advance E (HL.Parser.advance E (HL.Parser.advance E st))) ∧
+        s1.current.ty = .number ∧ a.range.stop = s1.current.stop)) :=
+  HL.Parser.amount_range_stop E st st' a h
+
+/-- The three witnesses end to end (text in, ranges out, through the lexer, parser and server
+    models): every cursor on `a:b` hovers the account with the range of "a:b", every cursor on
+    the amount hovers "1 USD", references / definition from every cursor on `руб` report "руб". -/
+example :
+    let d1 := "2024-01-15 x\n    a:b ;c\n"
+    let t1 := (HL.Pipeline.parseText Classes.go d1.toUTF8.toList).1
+    let d3 := "2024-01-15 x\n    a:b  1 руб  ; c\n    c:d\n"
+    let t3 := (HL.Pipeline.parseText Classes.go d3.toUTF8.toList).1
+    ([4, 5, 6, 7].map fun ch => (hover (lines d1.toList) t1 ⟨1, ch⟩).map fun e => (toN e.2, covers d1.toList (toN e.2) "a:b".toList)) =
+      List.replicate 4 (some (⟨1, 4, 1, 7⟩, true)) ∧
+    hover (lines d1.toList) t1 ⟨1, 8⟩ = none ∧
+    ([11, 12, 13, 14].map fun ch => (references (lines d3.toList) t3 ⟨1, ch⟩ true).map fun e =>
+        (toN e.2, covers d3.toList (toN e.2) "руб".toList)) = List.replicate 4 [(⟨1, 11, 1, 14⟩, true)] ∧
+    references (lines d3.toList) t3 ⟨1, 15⟩ true = [] ∧
+    ([11, 14].map fun ch => (definition (lines d3.toList) t3 ⟨1, ch⟩).map fun e => slice d3.toList (toN e.2)) =
+      List.replicate 2 [some "руб".toList] := by
+  decide +kernel
 
 /-- `2024-01-15 (c1) Shop`: `estimatePayeeRange` places the payee one blank after the date; the
     range sent for the payee "Shop" covers the code. -/
